@@ -197,6 +197,7 @@ class OpHistory(Harness):
         recs = lg.distinct()
         new = recs[st["seen"]:]
         st["seen"] = len(recs)
+        st["round_fills"] = [r for r in new if isinstance(r, ExecutionLog)]
         byid = {o["id"]: o for o in ref.orders}
         for r in new:
             if isinstance(r, ExecutionLog):
@@ -284,8 +285,39 @@ class OpHistory(Harness):
             return None
         return (b["price"] + s["price"]) / 2.0
 
+    def _check_round_prices(self, g, ref, fills):
+        """C01 on the fills of one round (the records written since the previous operation)."""
+        if not fills:
+            return
+        byid = {o["id"]: o for o in ref.orders}
+        for f in fills:
+            b, s_ = byid.get(f.buy_order_id), byid.get(f.sell_order_id)
+            g.require(b is not None and s_ is not None and b["is_buy"] and not s_["is_buy"], "C01.pairs-buy-with-sell")
+            if not b["is_market"]:
+                g.require(f.price <= b["price"], "C01.price<=buy-limit", "fill above the buyer's limit")
+            if not s_["is_market"]:
+                g.require(f.price >= s_["price"], "C01.price>=sell-limit", "fill below the seller's limit")
+            g.require(f.price == fills[0].price, "C01.one-price-per-round")
+        last = fills[-1]
+        b, s_ = byid[last.buy_order_id], byid[last.sell_order_id]
+        g.require(not (b["is_market"] and s_["is_market"]), "C01.last-pair-has-limit")
+        if b["is_market"]:
+            expect = s_["price"]
+        elif s_["is_market"]:
+            expect = b["price"]
+        else:
+            b_first = sor(b["time"] < s_["time"], sand(b["time"] == s_["time"], b["id"] < s_["id"]))
+            expect = ite(b_first, b["price"], s_["price"])
+        g.require(last.price == expect, "C01.price-of-earlier-order-of-last-pair",
+                  "round price is not the limit of the earlier-accepted order of the last matched pair")
+        if len(fills) >= 2:
+            g.note("multi-fill")
+
     def _after_event(self, g, m, lg, ref, st, was_running, mp_before):
         self._sync_logs(g, m, lg, ref, st)
+        if "C01" in self.props:
+            self._check_round_prices(g, ref, st["round_fills"])
+            return
         if "C03" in self.props:
             if m.is_running:
                 from .matching import _Monitors
@@ -317,7 +349,7 @@ class OpHistory(Harness):
 
     def _after_tick(self, g, m, lg, ref, st, mp_before, mid_before):
         self._sync_logs(g, m, lg, ref, st)
-        if "C03" in self.props:
+        if "C03" in self.props or "C01" in self.props:
             return
         now = m.get_time()
         if "C04" in self.props:
@@ -494,3 +526,10 @@ class C03_OpHistory(OpHistory):
     props = ("C03",)
     with_switch = False
     reach = ("nontrivial", "expiry", "post:uncrossed-two-sided", "post:both-market")
+
+
+class C01_OpHistory(OpHistory):
+    """C01 along histories with cancels, expiries, clock steps and crossed books accumulated while not running"""
+    props = ("C01",)
+    with_switch = True
+    reach = ("nontrivial", "expiry", "multi-fill", "switch")
